@@ -4,6 +4,7 @@ Protocol (AbstractRFA): n < 2 -> ValueError; rfa() returns two ndarrays of lengt
 linear oversampling of x (every n-th abscissa an original one).  Each concrete strategy is verified against the same
 clause (`grid_ok`), and Weaver.recreate_from_average is verified against the protocol only."""
 from pyvc.spec import *
+import contracts._rfa_rt as RT      # run-time-only readings used by the `assumed=` (bounded) clauses
 
 R = 'traffic_weaver.rfa.'
 ABS = R + 'AbstractRFA'
@@ -18,6 +19,7 @@ EXPA = R + 'ExpAdaptiveRFA'
 class_shape(ABS, x=Seq(Real), y=Seq(Real), n=Int)
 class_shape(PWC, x=Seq(Real), y=Seq(Real), n=Int)
 class_shape(FUN, x=Seq(Real), y=Seq(Real), n=Int, sampling_function_supplier=Any, sampling_function_supplier_kwargs=Any)
+class_shape(CUB, x=Seq(Real), y=Seq(Real), n=Int, sampling_function_supplier=Any, sampling_function_supplier_kwargs=Any)
 class_shape(LINF, x=Seq(Real), y=Seq(Real), n=Int, a=Int, a_l=Int, a_r=Int)
 class_shape(LINA, x=Seq(Real), y=Seq(Real), n=Int, a=Int, adaptive_smooth=Real)
 class_shape(EXPF, x=Seq(Real), y=Seq(Real), n=Int, a=Int, a_l=Int, a_r=Int, b=Int, exp=Real)
@@ -61,6 +63,30 @@ def same(a, b):
 def abs_init_post(self, x, y, n, kwargs, result):
     return (now(self).n == n and is_ndarray(now(self).x) and is_ndarray(now(self).y)
             and same(now(self).x, x) and same(now(self).y, y))
+
+
+# ------------------------------------------------------------------ protocol of rfa()
+
+# The abstract method: what Weaver.recreate_from_average may rely on for ANY strategy class.  It is not verified here (the
+# method has no body); every concrete strategy is verified against the same clause `grid_ok` (pwc_grid, fun_grid, linf_grid,
+# expf_grid, lina_grid, expa_grid; the spline strategy at run time only).
+contract(ABS + '.rfa', params=dict(self=Obj(ABS)), returns=Tuple(Seq(Real), Seq(Real)), assumed_contract=True, no_rt=True)
+
+
+@requires(ABS + '.rfa')
+def abs_rfa_pre(self):
+    return series_in(self)
+
+
+@ensures(ABS + '.rfa')
+def abs_rfa_grid(self, result):
+    return grid_ok(self.x, self.n, result)
+
+
+@ensures(ABS + '.rfa')
+def abs_rfa_increasing(self, result):
+    """consequence of grid_ok for strictly increasing x (linear spacing inside every gap)"""
+    return strictly_increasing(result[0])
 
 
 # ------------------------------------------------------------------ PiecewiseConstantRFA
@@ -475,8 +501,8 @@ def linf_h1_border(self, z, k):
 def linf_values(self, result):
     """C06: every recreated sample equals the documented closed form (border values = straight line between the plateau ends
     of the adjacent intervals; straight transitions; plateau at the average)"""
-    return (forall(range(len(self.x) - 1), lambda q: forall(range(self.n), lambda j: result[1][q * self.n + j] == fv(self, q + 1, j)))
-            and result[1][(len(self.x) - 1) * self.n] == z0(self, len(self.x)))
+    return (forall(range(len(self.x) - 1), lambda q: forall(range(self.n), lambda j: eq(result[1][q * self.n + j], fv(self, q + 1, j))))
+            and eq(result[1][(len(self.x) - 1) * self.n], z0(self, len(self.x))))
 
 
 # =============================================================================== ExpFixedRFA.rfa (C04 structure)
@@ -567,6 +593,39 @@ def windows_ok(ws, count, a):
 def gatp_inv(x, y, a, a_ls, a_rs, k):
     return (1 <= k and len(a_ls) == k and len(a_rs) == k and a >= 2
             and forall(range(k), lambda i: 0 <= a_ls[i] and a_ls[i] <= a and 0 <= a_rs[i] and a_rs[i] <= a))
+
+
+def jump_r(y, i):
+    """|average of interval i+1 - average of interval i|"""
+    return abs(y.a[(i + 1) * y.n] - y.a[i * y.n])
+
+
+def jump_l(y, i):
+    return abs(y.a[i * y.n] - y.a[(i - 1) * y.n])
+
+
+def split_ok(y, a, adaptive_smooth, al, ar, i):
+    """C06: how the window of interval i is split between its two sides"""
+    return ((al == 0 and ar == 0) if (jump_r(y, i) == 0 and jump_l(y, i) == 0) else
+            ((al == a // 2 and ar == 0) if jump_r(y, i) == 0 else
+             ((al == 0 and ar == a // 2) if jump_l(y, i) == 0 else
+              # both sides jump: each side gets at least one sample; in proportion to gamma = (right jump / left jump) ** smooth
+              (1 <= al and al <= a and 1 <= ar and ar <= a
+               and al == trunc(min(max(pw(jump_r(y, i) / jump_l(y, i), adaptive_smooth) * a / (1 + pw(jump_r(y, i) / jump_l(y, i), adaptive_smooth)), 1), a))
+               and ar == trunc(min(max(a / (1 + pw(jump_r(y, i) / jump_l(y, i), adaptive_smooth)), 1), a))
+               # the side with the larger jump never gets the larger window (default smoothing, where documentation and code agree)
+               and implies(adaptive_smooth == 1 and jump_r(y, i) >= jump_l(y, i), ar <= al)
+               and implies(adaptive_smooth == 1 and jump_r(y, i) <= jump_l(y, i), al <= ar)))))
+
+
+@invariant(GATP, loop=1)
+def gatp_inv_split(x, y, a, adaptive_smooth, a_ls, a_rs, k):
+    return forall(range(1, k), lambda i: split_ok(y, a, adaptive_smooth, a_ls[i], a_rs[i], i))
+
+
+@ensures(GATP)
+def gatp_split(x, y, a, adaptive_smooth, result):
+    return forall(range(1, len(x.a) // x.n - 1), lambda i: split_ok(y, a, adaptive_smooth, result[0][i], result[1][i], i))
 
 
 @ensures(GATP)
@@ -711,3 +770,332 @@ def expa_h_xs_grid(self, osx, result):
 @ensures(EXPA + '.rfa', uses=['expa_h_xs_grid'])
 def expa_grid(self, result):
     return grid_ok(self.x, self.n, result)
+
+
+# =============================================================================== lemmas over the LinearFixedRFA closed form
+#
+# `linf_values` proves that the code computes fv(self, q + 1, j).  The shape properties of C05 and the metamorphic properties
+# of C07 are properties of that specification function; they are proved here once, for all series, spacings, n and windows.
+
+def between(v, a, b):
+    return (a <= v and v <= b) if a <= b else (b <= v and v <= a)
+
+
+def interior(self, K, j):
+    return 1 <= K and K <= len(self.x) - 1 and 0 <= j and j < self.n
+
+
+LB = 'lemma:rfa.linear_fixed.bounds'
+contract(LB, params=dict(self=Obj(LINF), K=Int, j=Int), lemma=True, no_rt=True)
+
+
+@requires(LB)
+def lb_pre(self, K, j):
+    return linf_pre(self) and interior(self, K, j)
+
+
+@hint(LB, when='entry')
+def lb_h_order(self, K, j):
+    """abscissae of interval K and its neighbours are ordered as their sample numbers"""
+    return (xe(self, K - 1, self.n - self.a_r) < xe(self, K, 0) and xe(self, K, 0) < xe(self, K, self.a_l)
+            and xe(self, K, self.a_l) <= xe(self, K, self.n - self.a_r) and xe(self, K, self.n - self.a_r) < xe(self, K + 1, 0)
+            and xe(self, K + 1, 0) < xe(self, K + 1, self.a_l))
+
+
+@hint(LB, when='entry')
+def lb_h_order_j(self, K, j):
+    return (implies(j < self.a_l, xe(self, K, 0) <= xe(self, K, j) and xe(self, K, j) < xe(self, K, self.a_l))
+            and implies(j > self.n - self.a_r, xe(self, K, self.n - self.a_r) < xe(self, K, j) and xe(self, K, j) < xe(self, K + 1, 0)))
+
+
+@hint(LB, when='entry')
+def lb_h_borders(self, K, j):
+    """each border value lies between the two adjacent averages"""
+    return between(z0(self, K), ye(self, K - 1), ye(self, K)) and between(z0(self, K + 1), ye(self, K), ye(self, K + 1))
+
+
+@ensures(LB)
+def lb_plateau(self, K, j):
+    """C05: the samples a_l .. n - a_r of an interval equal its average - at most a_l + a_r - 1 <= a - 1 samples differ"""
+    return implies(self.a_l <= j and j <= self.n - self.a_r, fv(self, K, j) == ye(self, K)) and self.a_l + self.a_r - 1 <= self.a - 1
+
+
+@ensures(LB)
+def lb_left(self, K, j):
+    """C05: left transition samples lie between the border value and the average, hence between the two averages"""
+    return implies(j < self.a_l, between(fv(self, K, j), z0(self, K), ye(self, K)) and between(fv(self, K, j), ye(self, K - 1), ye(self, K)))
+
+
+@ensures(LB)
+def lb_right(self, K, j):
+    return implies(j > self.n - self.a_r, between(fv(self, K, j), ye(self, K), z0(self, K + 1))
+                   and between(fv(self, K, j), ye(self, K), ye(self, K + 1)))
+
+
+LM = 'lemma:rfa.linear_fixed.monotone'
+contract(LM, params=dict(self=Obj(LINF), K=Int, j=Int), lemma=True, no_rt=True)
+
+
+@requires(LM)
+def lm_pre(self, K, j):
+    return linf_pre(self) and interior(self, K, j)
+
+
+@hint(LM, when='entry')
+def lm_h_order(self, K, j):
+    return (xe(self, K, 0) < xe(self, K, self.a_l) and xe(self, K, self.n - self.a_r) < xe(self, K + 1, 0)
+            and implies(j + 1 <= self.a_l, xe(self, K, j) < xe(self, K, j + 1))
+            and implies(j >= self.n - self.a_r and j + 1 < self.n, xe(self, K, j) < xe(self, K, j + 1))
+            and implies(j + 1 == self.n, xe(self, K, j) < xe(self, K + 1, 0)))
+
+
+@ensures(LM)
+def lm_left(self, K, j):
+    """C05: from the border value the samples move monotonically to the plateau (each step has the sign of average - border)"""
+    return implies(j + 1 <= self.a_l, (fv(self, K, j + 1) - fv(self, K, j)) * (ye(self, K) - z0(self, K)) >= 0)
+
+
+@ensures(LM)
+def lm_right(self, K, j):
+    return implies(j >= self.n - self.a_r and j + 1 < self.n,
+                   (fv(self, K, j + 1) - fv(self, K, j)) * (z0(self, K + 1) - ye(self, K)) >= 0)
+
+
+# ---- C07: changes of units and locality: two strategy objects on related data
+
+LEY = 'lemma:rfa.linear_fixed.equivariance_y'
+contract(LEY, params=dict(s1=Obj(LINF), s2=Obj(LINF), al=Real, be=Real, K=Int, j=Int), lemma=True, no_rt=True)
+
+
+def same_setup(s1, s2):
+    return (len(s1.x) == len(s2.x) and s1.n == s2.n and s1.a == s2.a and s1.a_l == s2.a_l and s1.a_r == s2.a_r)
+
+
+def ratio(x, x0, x1):
+    return (x - x0) / (x1 - x0)
+
+
+def same_grid_points(s1, s2, K, j):
+    return (xe(s2, K, j) == xe(s1, K, j) and xe(s2, K, 0) == xe(s1, K, 0) and xe(s2, K, s1.a_l) == xe(s1, K, s1.a_l)
+            and xe(s2, K, s1.n - s1.a_r) == xe(s1, K, s1.n - s1.a_r) and xe(s2, K - 1, s1.n - s1.a_r) == xe(s1, K - 1, s1.n - s1.a_r)
+            and xe(s2, K + 1, 0) == xe(s1, K + 1, 0) and xe(s2, K + 1, s1.a_l) == xe(s1, K + 1, s1.a_l))
+
+
+@requires(LEY)
+def ley_pre(s1, s2, al, be, K, j):
+    return (linf_pre(s1) and linf_pre(s2) and same_setup(s1, s2) and interior(s1, K, j)
+            and forall(range(len(s1.x)), lambda i: s2.y[i] == al * s1.y[i] + be and s2.x[i] == s1.x[i]))
+
+
+@hint(LEY, when='entry')
+def ley_h_grid(s1, s2, al, be, K, j):
+    return (same_grid_points(s1, s2, K, j)
+            and ye(s2, K) == al * ye(s1, K) + be and ye(s2, K - 1) == al * ye(s1, K - 1) + be and ye(s2, K + 1) == al * ye(s1, K + 1) + be)
+
+
+@hint(LEY, when='entry')
+def ley_h_borders(s1, s2, al, be, K, j):
+    return z0(s2, K) == al * z0(s1, K) + be and z0(s2, K + 1) == al * z0(s1, K + 1) + be
+
+
+@ensures(LEY)
+def ley_commutes(s1, s2, al, be, K, j):
+    """C07: y -> al*y + be before recreation = the same map applied to the recreated values (the strategy is an affine map of
+    the averages whose weights sum to one)"""
+    return fv(s2, K, j) == al * fv(s1, K, j) + be
+
+
+LEX = 'lemma:rfa.linear_fixed.equivariance_x'
+contract(LEX, params=dict(s1=Obj(LINF), s2=Obj(LINF), c=Real, d=Real, K=Int, j=Int), lemma=True, no_rt=True)
+
+
+@requires(LEX)
+def lex_pre(s1, s2, c, d, K, j):
+    return (linf_pre(s1) and linf_pre(s2) and same_setup(s1, s2) and interior(s1, K, j) and c > 0
+            and forall(range(len(s1.x)), lambda i: s2.y[i] == s1.y[i] and s2.x[i] == c * s1.x[i] + d))
+
+
+@hint(LEX, when='entry')
+def lex_h_grid(s1, s2, c, d, K, j):
+    return (xe(s2, K, j) == c * xe(s1, K, j) + d and xe(s2, K, 0) == c * xe(s1, K, 0) + d
+            and xe(s2, K, s1.a_l) == c * xe(s1, K, s1.a_l) + d and xe(s2, K, s1.n - s1.a_r) == c * xe(s1, K, s1.n - s1.a_r) + d
+            and xe(s2, K - 1, s1.n - s1.a_r) == c * xe(s1, K - 1, s1.n - s1.a_r) + d
+            and xe(s2, K + 1, 0) == c * xe(s1, K + 1, 0) + d and xe(s2, K + 1, s1.a_l) == c * xe(s1, K + 1, s1.a_l) + d
+            and ye(s2, K) == ye(s1, K) and ye(s2, K - 1) == ye(s1, K - 1) and ye(s2, K + 1) == ye(s1, K + 1))
+
+
+@hint(LEX, when='entry')
+def lex_h_order(s1, s2, c, d, K, j):
+    return (xe(s1, K - 1, s1.n - s1.a_r) < xe(s1, K, 0) and xe(s1, K, 0) < xe(s1, K, s1.a_l)
+            and xe(s1, K, s1.n - s1.a_r) < xe(s1, K + 1, 0) and xe(s1, K + 1, 0) < xe(s1, K + 1, s1.a_l))
+
+
+@hint(LEX, when='entry')
+def lex_h_ratio_borders(s1, s2, c, d, K, j):
+    """ratios of differences of abscissae are not changed by x -> c*x + d"""
+    return (ratio(xe(s2, K, 0), xe(s2, K - 1, s1.n - s1.a_r), xe(s2, K, s1.a_l)) == ratio(xe(s1, K, 0), xe(s1, K - 1, s1.n - s1.a_r), xe(s1, K, s1.a_l))
+            and ratio(xe(s2, K + 1, 0), xe(s2, K, s1.n - s1.a_r), xe(s2, K + 1, s1.a_l))
+            == ratio(xe(s1, K + 1, 0), xe(s1, K, s1.n - s1.a_r), xe(s1, K + 1, s1.a_l)))
+
+
+@hint(LEX, when='entry')
+def lex_h_ratio_left(s1, s2, c, d, K, j):
+    return ratio(xe(s2, K, j), xe(s2, K, 0), xe(s2, K, s1.a_l)) == ratio(xe(s1, K, j), xe(s1, K, 0), xe(s1, K, s1.a_l))
+
+
+@hint(LEX, when='entry')
+def lex_h_ratio_right(s1, s2, c, d, K, j):
+    return ratio(xe(s2, K, j), xe(s2, K, s1.n - s1.a_r), xe(s2, K + 1, 0)) == ratio(xe(s1, K, j), xe(s1, K, s1.n - s1.a_r), xe(s1, K + 1, 0))
+
+
+@hint(LEX, when='entry')
+def lex_h_borders(s1, s2, c, d, K, j):
+    return z0(s2, K) == z0(s1, K) and z0(s2, K + 1) == z0(s1, K + 1)
+
+
+@ensures(LEX)
+def lex_commutes(s1, s2, c, d, K, j):
+    """C07: x -> c*x + d (c > 0) before recreation: same values on the mapped grid"""
+    return fv(s2, K, j) == fv(s1, K, j) and xe(s2, K, j) == c * xe(s1, K, j) + d
+
+
+LL = 'lemma:rfa.linear_fixed.locality'
+contract(LL, params=dict(s1=Obj(LINF), s2=Obj(LINF), K=Int, j=Int), lemma=True, no_rt=True)
+
+
+@requires(LL)
+def ll_pre(s1, s2, K, j):
+    return (linf_pre(s1) and linf_pre(s2) and same_setup(s1, s2) and interior(s1, K, j)
+            and forall(range(len(s1.x)), lambda i: s2.x[i] == s1.x[i])
+            # the averages of interval K (original index K-1) and of its two neighbours agree; all others are arbitrary
+            and forall(range(len(s1.x)), lambda i: s2.y[i] == s1.y[i] if (K - 2 <= i and i <= K) else True)
+            and 2 <= K and K <= len(s1.x) - 2)
+
+
+@hint(LL, when='entry')
+def ll_h_grid(s1, s2, K, j):
+    return (xe(s2, K, j) == xe(s1, K, j) and xe(s2, K, 0) == xe(s1, K, 0) and xe(s2, K, s1.a_l) == xe(s1, K, s1.a_l)
+            and xe(s2, K, s1.n - s1.a_r) == xe(s1, K, s1.n - s1.a_r) and xe(s2, K - 1, s1.n - s1.a_r) == xe(s1, K - 1, s1.n - s1.a_r)
+            and xe(s2, K + 1, 0) == xe(s1, K + 1, 0) and xe(s2, K + 1, s1.a_l) == xe(s1, K + 1, s1.a_l)
+            and ye(s2, K) == ye(s1, K) and ye(s2, K - 1) == ye(s1, K - 1) and ye(s2, K + 1) == ye(s1, K + 1))
+
+
+@ensures(LL)
+def ll_local(s1, s2, K, j):
+    """C07: a recreated value of an interval reads only that interval's and the two adjacent intervals' averages"""
+    return z0(s2, K) == z0(s1, K) and z0(s2, K + 1) == z0(s1, K + 1) and fv(s2, K, j) == fv(s1, K, j)
+
+
+
+# =============================================================================== bounded stand-ins (run-time monitoring only)
+#
+# The values of ExpFixedRFA, LinearAdaptiveRFA, ExpAdaptiveRFA and of the spline strategy are NOT proved statically.  The
+# clauses below are evaluated by the run-time monitor on generated strategy objects (ties, non-uniform spacing, explicit
+# windows, all parameters); they are listed in the evidence as *assumed / bounded* and never counted as discharged.
+
+BOUNDED = 'bounded: run-time monitoring on generated inputs only, not proved'
+
+
+@ensures(LINF + '.rfa', assumed=BOUNDED)
+def linf_rt_c04(self, result):
+    return RT.finite(result)
+
+
+@ensures(LINF + '.rfa', assumed=BOUNDED)
+def linf_rt_c05(self, result):
+    return RT.shape_ok(self, result, False) and RT.constant_ok(self, result)
+
+
+@ensures(LINF + '.rfa', assumed=BOUNDED)
+def linf_rt_c06(self, result):
+    return RT.fixed_border_ok(self, result)
+
+
+@ensures(LINF + '.rfa', assumed=BOUNDED)
+def linf_rt_c07(self, result):
+    return RT.equivariant(self, result) and RT.local(self, result, 1)
+
+
+@ensures(EXPF + '.rfa', assumed=BOUNDED)
+def expf_rt_c04(self, result):
+    return RT.finite(result)
+
+
+@ensures(EXPF + '.rfa', assumed=BOUNDED)
+def expf_rt_c05(self, result):
+    return RT.shape_ok(self, result, False) and RT.constant_ok(self, result)
+
+
+@ensures(EXPF + '.rfa', assumed=BOUNDED)
+def expf_rt_c06(self, result):
+    return RT.fixed_border_ok(self, result)
+
+
+@ensures(EXPF + '.rfa', assumed=BOUNDED)
+def expf_rt_c07(self, result):
+    return RT.equivariant(self, result) and RT.local(self, result, 1)
+
+
+@ensures(LINA + '.rfa', assumed=BOUNDED)
+def lina_rt_c04(self, result):
+    return RT.finite(result)
+
+
+@ensures(LINA + '.rfa', assumed=BOUNDED)
+def lina_rt_c05(self, result):
+    return RT.shape_ok(self, result, True) and RT.constant_ok(self, result)
+
+
+@ensures(LINA + '.rfa', assumed=BOUNDED)
+def lina_rt_c07(self, result):
+    return RT.equivariant(self, result) and RT.local(self, result, 2)
+
+
+@ensures(EXPA + '.rfa', assumed=BOUNDED)
+def expa_rt_c04(self, result):
+    return RT.finite(result)
+
+
+@ensures(EXPA + '.rfa', assumed=BOUNDED)
+def expa_rt_c05(self, result):
+    return RT.shape_ok(self, result, True) and RT.constant_ok(self, result)
+
+
+@ensures(EXPA + '.rfa', assumed=BOUNDED)
+def expa_rt_c07(self, result):
+    return RT.equivariant(self, result) and RT.local(self, result, 2)
+
+
+@ensures(PWC + '.rfa', assumed=BOUNDED)
+def pwc_rt_c04(self, result):
+    return RT.finite(result)
+
+
+@ensures(PWC + '.rfa', assumed=BOUNDED)
+def pwc_rt_c07(self, result):
+    return RT.constant_ok(self, result) and RT.equivariant(self, result) and RT.local(self, result, 0)
+
+
+CUBRFA = CUB + '.rfa'
+contract(CUBRFA, params=dict(self=Obj(CUB)), returns=Tuple(Seq(Real), Seq(Real)), rt_only=True)
+
+
+@requires(CUBRFA)
+def cub_pre(self):
+    return series_in(self)
+
+
+@ensures(CUBRFA, assumed=BOUNDED)
+def cub_rt_c04(self, result):
+    """C04 for the spline strategy (SciPy's CubicSpline is outside the verifier)"""
+    return grid_ok(self.x, self.n, result) and RT.finite(result)
+
+
+@ensures(CUBRFA, assumed=BOUNDED)
+def cub_rt_c05(self, result):
+    return RT.spline_through_points(self, result) and RT.constant_ok(self, result)
+
+
+@ensures(CUBRFA, assumed=BOUNDED)
+def cub_rt_c07(self, result):
+    return RT.equivariant(self, result)
